@@ -122,6 +122,10 @@ def candidates(seed, around=None):
                 d["linelen"], d["indent"] = ll, ind
                 yield d
     conts = ["&", "", " \\"]
+    # quotes, apostrophes and escapes next to break hints (a hint is a hint wherever it stands)
+    for body in ("x = 'a\tb',\t y", 'call f("a\tb",\t c)', "it's\t a,\t b,\t c", "s = '\\'',\t t,\t u", 'a "\f b"\f c', "1'000,\t 2"):
+        for ll in (5, 8, 12, 72):
+            yield {"line": body, "spaces": " ", "indent": 1, "linelen": ll, "cont": "&"}
     # exhaustive small scope first
     for n in range(1, 6):
         for tup in itertools.product(alpha, repeat=n):
